@@ -297,6 +297,37 @@ fn finalize(ctx: &Ctx, rep: Report, wall: f64) -> i32 {
             printed += 1;
         }
     }
+    // (a) histories of two calls: an input whose result depends on the call made before it in
+    // the same thread (space E3.pairs) reproduces after the right predecessor
+    {
+        let menu = spaces::history_menu();
+        let mut rest = vec![];
+        for (path, sub, case, j) in pending.drain(..) {
+            let mut found = None;
+            if let Case::Input(_) = &case {
+                for x in &menu {
+                    // a fresh thread per attempt: thread-local state of earlier attempts is gone
+                    let r = std::thread::scope(|sc| sc.spawn(|| (props::replay_case_after(ctx, sub, x, &case), props::replay_case_after(ctx, sub, x, &case))).join().unwrap());
+                    if !r.0.is_empty() && r.0 == r.1 {
+                        found = Some(x.clone());
+                        break;
+                    }
+                }
+            }
+            match found {
+                Some(x) => {
+                    let mut j = j.clone();
+                    j["after_input_hex"] = json!(hex(&x));
+                    j["history_dependent"] = json!(format!("the case holds on its own and fails when the same thread has just processed {:?}: the library keeps state between calls", String::from_utf8_lossy(&x)));
+                    std::fs::write(&path, serde_json::to_string_pretty(&j).unwrap()).expect("write replay");
+                    lines.push(format!("VIOLATION property={} replay={}", ctx.prop, path));
+                    eprintln!("  [{}] {}: reproduces after the call on {:?} (state kept between calls)", sub, case.key(), String::from_utf8_lossy(&x));
+                }
+                None => rest.push((path, sub, case, j)),
+            }
+        }
+        pending = rest;
+    }
     if !pending.is_empty() && lines.iter().any(|l| l.starts_with("VIOLATION")) {
         // the verdict already stands on a reproducible case (for shared mutable state: the
         // enumerated schedule of the E6 explorer); the sweep's sightings are only noted
@@ -453,8 +484,13 @@ fn replay(path: &str) -> i32 {
         eprintln!("sub-check {} cannot be replayed in-process (see the file for the command)", sub);
         return 2;
     };
-    let r1 = props::replay_case(&ctx, sub_static, &case);
-    let r2 = props::replay_case(&ctx, sub_static, &case);
+    let after = v.get("after_input_hex").and_then(|x| x.as_str()).and_then(unhex);
+    let run = |_: u8| match &after {
+        Some(x) => std::thread::scope(|sc| sc.spawn(|| props::replay_case_after(&ctx, sub_static, x, &case)).join().unwrap()),
+        None => props::replay_case(&ctx, sub_static, &case),
+    };
+    let r1 = run(1);
+    let r2 = run(2);
     if r1 != r2 {
         eprintln!("ENGINE-FAILURE divergent replay");
         return 3;
